@@ -14,6 +14,9 @@ def c13(tier):
         # random budget sequences in 1..10^4
         {'kind': 'lang', 'count': 120 if q else 5000, 'cfgs': 'slicesr', 'shards': 1 if q else 8},
         {'kind': 'cont', 'count': 80 if q else 5000, 'cfgs': 'slicesr', 'shards': 1 if q else 8},
+        # one form with live data beyond one heap chunk, in fewer than 8192 instructions: the uninterrupted run meets
+        # no periodic collection, the sliced runs collect at slice ends over a grown heap
+        {'kind': 'bigform', 'count': 3 if q else 60, 'cfgs': 'slicebig', 'shards': 1 if q else 4},
     ]
 
     def relevant(mm, sess, runs):
